@@ -100,6 +100,26 @@ def chk_to_int(d, bits=64):
     return check
 
 
+def probes_half_integers(d, scale_out=1):
+    """single inputs next to the points where x*scale_out/d crosses a half-integer (the candidates for a wrong rounding): for the
+    first, a middle and the last half-integer of the partition, the neighbouring representable inputs on both sides at several
+    distances"""
+    def probes(p):
+        if p.kind != 'f64' or not p.scale:
+            return []
+        t = abs(p.scale) * scale_out / d            # |x*scale_out/d| = t * V
+        lo, hi = t * p.vlo, t * p.vhi
+        ks = sorted({fl(lo), fl((lo + hi) / 2), fl(hi) - 1, fl(hi)})
+        out = []
+        for k in ks:
+            h = (Fr(k) + HALF) / t                  # V at which the half-integer is crossed
+            base = int(fl(h))
+            for dv in (0, 1, -1, 2, 3, 16, 1 << 10, 1 << 20, 1 << 27, 1 << 28, 1 << 29):
+                out += [base + dv, base - dv + 1]
+        return out
+    return probes
+
+
 def chk_exact(k):
     def check(p, av, ev):
         if av.P is not None:
